@@ -1,0 +1,13 @@
+//go:build !verif
+
+package app
+
+import (
+	"cosmossdk.io/x/tx/signing"
+	"google.golang.org/protobuf/reflect/protoreflect"
+)
+
+// verifCustomGetSigners is a no-op in normal builds (see encoding_hook_verif.go).
+func verifCustomGetSigners() map[protoreflect.FullName]signing.GetSignersFunc {
+	return nil
+}
